@@ -445,6 +445,9 @@ impl PayProof {
             .with(&old_pay_token_proof_builder)
             .with(&customer_range_constraint_builder)
             .with(&merchant_range_constraint_builder)
+            // integrate the revealed commitment scalars for the public values
+            .with(&old_pay_token_proof_builder.conjunction_commitment_scalars()[1])
+            .with(&close_state_proof_builder.conjunction_commitment_scalars()[1])
             // integrate context
             .with_bytes(context.as_bytes())
             .finish();
@@ -505,6 +508,9 @@ impl PayProof {
             .with(&self.old_pay_token_proof)
             .with(&self.customer_balance_proof)
             .with(&self.merchant_balance_proof)
+            // integrate the revealed commitment scalars for the public values
+            .with(&self.old_nonce_commitment_scalar)
+            .with(&self.close_tag_commitment_scalar)
             // integrate context
             .with_bytes(context.as_bytes())
             .finish();
